@@ -1,0 +1,101 @@
+//go:build verif
+// +build verif
+
+package pkcs12
+
+import (
+	"encoding/asn1"
+	"errors"
+)
+
+// Hooks for the verification harness, property C18 (build tag "verif" only). A PFX authenticates its
+// content with a password MAC, so a byte changed inside the content stops Decode at the MAC check. These
+// helpers open a PFX made by Encode and put a correct MAC around altered content, so that altered bytes
+// reach the decoders behind the MAC (pbDecrypt, the safe bag decoders, the PKCS#8 parser).
+// Nothing here changes the behaviour of existing code.
+
+// VerifPfxOpen returns the authenticated safe of pfxData (the bytes the MAC covers) and the plaintext
+// SafeContents encoding of each of its parts.
+func VerifPfxOpen(pfxData []byte, password string) (authSafe []byte, parts [][]byte, err error) {
+	pw, err := bmpString(password)
+	if err != nil {
+		return nil, nil, err
+	}
+	pfx := new(pfxPdu)
+	if err := unmarshal(pfxData, pfx); err != nil {
+		return nil, nil, err
+	}
+	if err := unmarshal(pfx.AuthSafe.Content.Bytes, &pfx.AuthSafe.Content); err != nil {
+		return nil, nil, err
+	}
+	authSafe = pfx.AuthSafe.Content.Bytes
+	var cis []contentInfo
+	if err := unmarshal(authSafe, &cis); err != nil {
+		return nil, nil, err
+	}
+	for _, ci := range cis {
+		var data []byte
+		switch {
+		case ci.ContentType.Equal(oidDataContentType):
+			if err := unmarshal(ci.Content.Bytes, &data); err != nil {
+				return nil, nil, err
+			}
+		case ci.ContentType.Equal(oidEncryptedDataContentType):
+			var ed encryptedData
+			if err := unmarshal(ci.Content.Bytes, &ed); err != nil {
+				return nil, nil, err
+			}
+			if data, err = pbDecrypt(ed.EncryptedContentInfo, pw); err != nil {
+				return nil, nil, err
+			}
+		default:
+			return nil, nil, errors.New("unexpected content type")
+		}
+		parts = append(parts, data)
+	}
+	return authSafe, parts, nil
+}
+
+// VerifAuthSafePlain builds an authenticated safe whose parts are unencrypted "data" content infos
+// holding the given bytes (a form getSafeContents accepts).
+func VerifAuthSafePlain(parts [][]byte) ([]byte, error) {
+	var cis []contentInfo
+	for _, p := range parts {
+		var ci contentInfo
+		ci.ContentType = oidDataContentType
+		ci.Content.Class = 2
+		ci.Content.Tag = 0
+		ci.Content.IsCompound = true
+		b, err := asn1.Marshal(p)
+		if err != nil {
+			return nil, err
+		}
+		ci.Content.Bytes = b
+		cis = append(cis, ci)
+	}
+	return asn1.Marshal(cis)
+}
+
+// VerifPfxSeal builds a version 3 PFX around authSafe with a correct SHA-1 MAC for password.
+func VerifPfxSeal(authSafe []byte, password string, salt []byte, iterations int) ([]byte, error) {
+	pw, err := bmpString(password)
+	if err != nil {
+		return nil, err
+	}
+	var pfx pfxPdu
+	pfx.Version = 3
+	pfx.MacData.Mac.Algorithm.Algorithm = oidSHA1
+	pfx.MacData.MacSalt = salt
+	pfx.MacData.Iterations = iterations
+	if err := computeMac(&pfx.MacData, authSafe, pw); err != nil {
+		return nil, err
+	}
+	pfx.AuthSafe.ContentType = oidDataContentType
+	pfx.AuthSafe.Content.Class = 2
+	pfx.AuthSafe.Content.Tag = 0
+	pfx.AuthSafe.Content.IsCompound = true
+	if pfx.AuthSafe.Content.Bytes, err = asn1.Marshal(authSafe); err != nil {
+		return nil, err
+	}
+	return asn1.Marshal(pfx)
+}
